@@ -40,7 +40,7 @@ CODES = {1: "hint file bytes", 2: "items read back / datasize", 3: "index length
          5: "merged items / datasize", 6: "collision table after merge"}
 
 
-def evaluate(ctx, cases, tag, per=12):
+def evaluate(ctx, cases, tag, per=6):
     shards = [("%s_%03d" % (tag, k // per), shard_text(cases[k:k + per])) for k in range(0, len(cases), per)]
     results = vlib.run_coq_shards(os.path.join(ctx.work, "cases"), shards, timeout=3000)
     mm, ok = [], 0
@@ -125,7 +125,7 @@ def gen_cases(ctx, count, seed, extra=()):
 
 
 def run(ctx):
-    count = 120 if ctx.tier == "quick" else 3000
+    count = 120 if ctx.tier == "quick" else 1200
     cases = gen_cases(ctx, count, ctx.seed, ["big"] if ctx.tier == "thorough" else [])
     mm, ns, ok = evaluate(ctx, cases, "c14")
     sm = []
